@@ -62,6 +62,13 @@ def mode_inputs(p):
         km = KMeansMachine(2, init_method=init, max_iter=2).fit(X)
         if not np.array_equal(init, i0) or not np.array_equal(X, X0) or np.shares_memory(km.centroids_, init) or np.shares_memory(km.centroids_, X):
             return {"what": "k-means modified or aliases the data / the initial centroids"}
+        # warm start: the initial centroids are already a fixed point (centroids of a converged run on the same data)
+        conv = KMeansMachine(2, init_method=X[:2].copy(), max_iter=50, convergence_threshold=None).fit(X)
+        init2 = np.array(conv.centroids_, copy=True)
+        i2 = init2.copy()
+        km2 = KMeansMachine(2, init_method=init2, max_iter=3).fit(X)
+        if not np.array_equal(init2, i2) or np.shares_memory(km2.centroids_, init2):
+            return {"what": "k-means started from converged centroids modifies or aliases the caller's initial-centroid array"}
         # i-vector: both covariance modes, floor above some UBM variances
         data = [ubm.acc_stats(X[i * 6:(i + 1) * 6]) for i in range(5)]
         d0 = snap(data)
